@@ -1053,7 +1053,7 @@ def run(chk):
     for need in ('sum=1', 'sum<1', 'sum>1'):
         for low in ('', '+clamped-floor'):
             k2 = 'fixedpoint-or-range/' + need + low
-            guard(br.get(k2, 0) < (8 if quick else 40),
+            guard(br.get(k2, 0) < (3 if quick else 15),
                   'canyon generator no longer builds isothermal / source-free states with %s often '
                   'enough (%d)' % (k2, br.get(k2, 0)), cmism)
 
